@@ -214,6 +214,7 @@ def main(pid, rep=None, finish=True):
 CODECS = ["utf-8", "ascii", "latin-1", "iso-8859-1", "iso-8859-15", "cp1252", "utf-16", "utf-16-le", "utf-32", "utf-7", "big5", "gbk",
           "shift_jis", "euc-jp", "koi8-r", "cp437", "mac-roman", "utf-8-sig", "idna", "punycode", "hex", "base64", "rot13",
           "zlib", "bz2", "unicode_escape", "raw_unicode_escape", "undefined", "mbcs", "oem", "klingon", "x-unknown", "utf8mb4", "",
+          "a\x00b", "uu", "quopri", "charmap", "cp65001", "big5hkscs", "x" * 300,
           "UTF-8", " utf-8 ", "'utf-8'"]
 
 
